@@ -580,6 +580,7 @@ func dvalRandomFeatureSet(c *Ctx) *descriptorpb.FeatureSet {
 // ---------------------------------------------------------------- driver
 
 func famDval(c *Ctx) {
+	defer dvalStopChild()
 	var plan []*dvalCase
 	flush := func() {
 		if len(plan) == 0 {
@@ -597,7 +598,7 @@ func famDval(c *Ctx) {
 	}
 	push := func(cs *dvalCase) {
 		plan = append(plan, cs)
-		if len(plan) >= 400 {
+		if len(plan) >= 1000 {
 			flush()
 		}
 	}
